@@ -10,7 +10,7 @@ def out(th):
         return th()
     except TypeError as e:
         s = str(e)
-        return "AMBIGUOUS" if s.startswith("Ambiguous") else "NOMETHOD" if s.startswith("No method") else f"TypeError:{s[:50]}"
+        return "AMBIGUOUS" if __import__("_errs").amb(s) else "NOMETHOD" if __import__("_errs").nomethod(s) else f"TypeError:{s[:50]}"
     except Exception as e:
         return f"{type(e).__name__}:{str(e)[:50]}"
 
